@@ -131,6 +131,14 @@ def replay_c10(case, doc, obs):
         after = os.stat(sb.path(F))
         files_s = _files(sb)
         log = [] if (before.st_mtime_ns == after.st_mtime_ns and before.st_ino == after.st_ino) else [("write", F)]
+        if case["params"].get("second") is not None:
+            G = "/vfs/g.md"
+            sb.write(G, case["params"]["second"])
+            of = real_main(sb, pre + sel + ["fix", F, G])
+            d1, g1 = sb.read(F), sb.read(G)
+            v = scan_props.c10_two(doc, d1, case["params"]["second"], g1, _O(of, _files(sb)), F, G, minimal)
+            obs.update(after_fix=d1, codes=[of["code"]], fixed=of["fixed"], violations=v)
+            return {"violates": bool(v), "observed": obs}
         of = real_main(sb, pre + sel + ["fix", F])
         d1 = sb.read(F)
         files_f = _files(sb)
@@ -187,6 +195,19 @@ def replay_c14(case, doc, obs):
     import recorder_rule
 
     R = recorder_rule.RecorderRule
+    if case["harness"] == "c14fix":
+        rp = os.path.join(plug, "recorder_fix_rule.py" if case["params"].get("fixrule") else "recorder_rule.py")
+        R.reset()
+        with Sandbox() as sb:
+            sb.write(F, doc)
+            o = real_main(sb, ["--add-plugin", rp, "fix", F])
+        log = list(R.LOG)
+        R.reset()
+        if any("Error" in e for e in o["err"]):
+            return {"violates": False, "observed": dict(obs, err=o["err"][:2])}
+        v = scan_props.c14_fix_shape(log)
+        obs.update(calls="".join(e[0][0] for e in log)[:200], violations=v)
+        return {"violates": bool(v), "observed": obs}
     second = case["params"].get("second")
     disabled = bool(case["params"].get("disabled"))
     argv = ["--add-plugin", os.path.join(plug, "recorder_rule.py")] + (["-d", "vpr001"] if disabled else []) + ["scan", F] + (["/vfs/g.md"] if second is not None else [])
@@ -377,7 +398,7 @@ def replay_c18(case, doc, obs):
             sb.write(F, doc); o = real_main(sb, pre + ["scan", "-l", F])
         elif sc in ("fault", "fault-continue", "fault-fix"):
             R.reset(fault_at=case["vars"]["k"])
-            sb.write(A, doc); sb.write(B, GOOD)
+            sb.write(A, doc); sb.write(B, BAD)
             o = real_main(sb, pre + ["--add-plugin", RPATH] + (["--continue-on-error"] if sc == "fault-continue" else []) + ["fix" if sc == "fault-fix" else "scan", A, B])
         else:
             raise ValueError(sc)
@@ -451,7 +472,7 @@ def replay_c15(case, doc, obs):
 
     p = case["params"]
     sc, mode, cont = p["scenario"], p.get("mode", "scan"), bool(p.get("cont"))
-    OTHER = "x  \n\n\n# y"
+    OTHER = "x  \n\n- p\n  - q\n\n\n# y"
     R, RPATH = _recorder()
     if p.get("fixrule"):
         RPATH = RPATH.replace("recorder_rule.py", "recorder_fix_rule.py")
@@ -545,6 +566,24 @@ def replay_c11(case, doc, obs):
     from checks.parse_real import tokenizer
 
     p = case["params"]
+    if "kinds" in p:  # two-pragma kernel: replay through the whole application
+        vv = case["vars"]
+        a, b, l, n = vv["p1"], vv["p2"], vv["l"], vv["d"] - 48
+        rule = ["md013", "md047", "md009"][vv["r"]]
+        if rule != "md013" or l in (a, b):
+            return {"violates": False, "observed": {"note": "kernel-only variant"}}
+        lines = ["ok"] * 12
+        lines[a - 1] = "<!-- pyml disable-next-line md013-->" if p["kinds"][0] == "disable-next-line" else f"<!-- pyml disable-num-lines {n} md013-->"
+        lines[b - 1] = f"<!-- pyml disable-num-lines {n} md047-->"
+        lines[l - 1] = ("xy " * 34).strip()
+        text = "\n".join(lines) + "\n"
+        with Sandbox() as sb:
+            sb.write(F, text)
+            o = real_main(sb, rule_args("only:md013") + ["scan", F])
+        cover_a = (l == a + 1) if p["kinds"][0] == "disable-next-line" else (a + 1 <= l <= a + n)
+        sup = not any(f[1] == l for f in o["fails"])
+        v = [] if sup == cover_a else [{"kind": "suppression", "detail": {"suppressed": sup, "expected": cover_a, "first_pragma_line": a, "second_pragma_line": b, "failure_line": l, "count": n}}]
+        return {"violates": bool(v), "observed": {"doc": text[:160], "fails": o["fails"], "violations": v}}
     if "p" in p:  # kernel case: replay through the whole application
         l, other = case["vars"]["l"], case["vars"]["other"]
         digits = "".join(chr(case["vars"][f"d{i}"]) for i in range(p.get("digits", 1))) if p["command"] == "disable-num-lines" else ""
